@@ -22,6 +22,8 @@ def run(m: Model, r: Report, tier: str) -> None:
     r.rule("R5", "overrides of _request keep the locked path (delegate to super()._request or lock themselves)", floor=1)
     r.rule("R6", "lock order client mutex -> transport mutex -> connection mutex is acyclic", floor=1)
     r.rule("R7", "the cyclic tester-present worker goes through the public, locked request path", floor=1)
+    r.rule("R8", "work that uses the transport under the client mutex is awaited by the lock holder itself: never handed to a task "
+                 "that outlives the critical section (asyncio.shield / create_task / ensure_future)", floor=1)
 
     cg = CallGraph(m)
     lm = LockModel(m, cg)
@@ -88,6 +90,36 @@ def run(m: Model, r: Report, tier: str) -> None:
                     f"self.transport.{n.func.attr}() is reachable without the client mutex: " + " <- ".join(chain) +
                     ": another task's exchange can be interleaved with this I/O", f"{f.module.relpath}:{n.lineno}")
     r.extra["unreachable_private_io"] = unreachable_private
+
+    # ---------------------------------------------------------------- R8
+    io_funcs = {f.qualname for f, _ in io_sites}
+    DETACH = {"shield", "create_task", "ensure_future", "run_coroutine_threadsafe"}
+    n_locked_fn = 0
+    for q, f in methods.items():
+        locked_fn = must.get(q, False) or any(k == mutex for k, _ in lm.acquisitions(f))
+        if not locked_fn:
+            continue
+        n_locked_fn += 1
+        bad = []
+        for n in walk_no_nested(f.node):
+            if not (isinstance(n, ast.Call) and isinstance(n.func, (ast.Attribute, ast.Name)) and (n.func.attr if isinstance(n.func, ast.Attribute) else n.func.id) in DETACH):
+                continue
+            if not (must.get(q, False) or mutex in lm.held_syntactic(f, n)):
+                continue
+            for a in n.args:
+                if not isinstance(a, ast.Call):
+                    continue
+                tg = [t for cs in cg.sites.get(q, []) if cs.node is a for t in cs.targets]
+                reach = set()
+                for t in tg:
+                    reach |= set(cg.reachable([t]))
+                if reach & io_funcs or any(t.qualname in io_funcs for t in tg):
+                    bad.append(f"{ast.unparse(n.func)}({ast.unparse(a.func)}(...)) at line {n.lineno}")
+        r.check(not bad, "R8", f"{q}#no-detached-exchange",
+                f"{bad}: when the caller is cancelled the lock is released while the detached exchange keeps using the transport, "
+                "so it interleaves with the next caller's exchange", loc=f.loc)
+    if n_locked_fn < 2:
+        raise AnalysisError("functions running under the client mutex not found")
 
     # ---------------------------------------------------------------- R2
     ru = m.require_function(f"{CLIENT}.UDSClient.request_unsafe")
